@@ -44,7 +44,7 @@ for p, cfg in props.ELEM.items():
         x = cfg["extra"]
         PLAN.append((p, x["driver"], {}, x["families"], x.get("args", []), max(1, x["quick"] // 2)))
 for p, cfg in props.SIMPLE.items():
-    if not cfg["families"]:
+    if not cfg["families"] or p == "C14":  # C14 judges iteration counts, not values: a corrupted result is invisible to it by design
         continue
     PLAN.append((p, cfg["driver"], cfg.get("driver_kw", {}), cfg["families"], cfg.get("args", []), max(1, cfg["quick"]["budget"] // 4)))
     if cfg.get("extra"):
@@ -56,7 +56,8 @@ PLAN.append(("C19", "d_move", {}, ["move"], [], 2))
 ALLOW = {
 }
 
-want = set(sys.argv[1:])
+want = set(a for a in sys.argv[1:] if not a.startswith("--op="))
+only_op = [a[5:] for a in sys.argv[1:] if a.startswith("--op=")]
 rows = []
 bad = 0
 for prop, drvname, kw, fams, xargs, budget in PLAN:
@@ -72,7 +73,7 @@ for prop, drvname, kw, fams, xargs, budget in PLAN:
     if "--ops" in xargs:
         ops &= set(xargs[xargs.index("--ops") + 1].split(","))
         xargs = [a for i, a in enumerate(xargs) if a != "--ops" and (i == 0 or xargs[i - 1] != "--ops")]
-    for op in sorted(ops):
+    for op in sorted(o for o in ops if not only_op or o in only_op):
         os.environ["XSV_INJECT"] = op + ":*"
         c = Check(prop, "quick", 1)
         c.write_shims(shim_map)
@@ -80,7 +81,7 @@ for prop, drvname, kw, fams, xargs, budget in PLAN:
         verdict, detail = "", ""
         try:
             res = c.run_workers(drv, list(xargs) + ["--ops", op], nworkers=4, budget=budget, timeout=900)
-            ev = sum(r.get("evaluations", 0) for r in res)
+            ev = sum(r.get("lane_checks", 0) for r in res)  # lanes actually compared with an oracle for this operation
             cand = sum(len(r.get("violations", [])) for r in res)
             c.handle_candidates(drv, res)
             if c.violations:
